@@ -4,7 +4,11 @@
    sampled from an affine (1-D) resp. bilinear (2-D) function -- on ANY node list (no ordering or
    uniformity of the nodes is needed: the identities are purely algebraic). *)
 From Coq Require Import List Arith Lia Bool Reals Lra.
-From OV Require Import Base.Panic Base.Arith Model.Vector Model.Mesh Proofs.MeshBase.
+From OV Require Import Base.Panic.
+From OV Require Import Base.Arith.
+From OV Require Import Model.Vector.
+From OV Require Import Model.Mesh.
+From OV Require Import Proofs.MeshBase.
 Import ListNotations.
 Local Open Scope R_scope.
 
